@@ -1,6 +1,7 @@
 (** Property C13 -- scrollback retention is bounded by the configured limit.
     Only pinned statements, closed by [exact], with their assumptions printed. *)
 From Avt Require Import Oracles.Step Proofs.Inv Proofs.BufScroll Proofs.InvTerm Proofs.InvStep.
+From Avt Require Import Gen.VtFns Proofs.VtTie.
 From Avt Require Import Gen.BufFns Proofs.BufTie.
 
 (** For every size, every limit L and every session: after any feed_str / resize call has returned, lines() holds at most rows + L + L/10 lines (exactly rows when L = 0), and exactly the visible rows while the alternate screen is showing. *)
@@ -30,3 +31,15 @@ Theorem C13_source_gc : forall b, res_map drained (g_buffer_gc b) =~ buf_gc b.
 Proof. exact tie_buffer_gc. Qed.
 Check C13_source_gc : forall b, res_map drained (g_buffer_gc b) =~ buf_gc b.
 Print Assumptions C13_source_gc.
+
+(** Vt::resize = terminal.resize; changes(); gc() - regenerated skeleton *)
+Theorem C13_source_resize : forall v c r, stepM v (Resize c r) = interp_skel g_feed_str_each (ASize c r) g_resize_skel v.
+Proof. exact tie_resize. Qed.
+Check C13_source_resize : forall v c r, stepM v (Resize c r) = interp_skel g_feed_str_each (ASize c r) g_resize_skel v.
+Print Assumptions C13_source_resize.
+
+(** Terminal::gc: which screen's drained lines are handed out is regenerated from the source (g_gc_select) *)
+Theorem C13_source_term_gc : forall t, term_gc t = bind (buf_gc (buf t)) (fun '(b, dr) => Ok (t <| buf := b |>, g_gc_select (active t) (Some dr))).
+Proof. exact tie_term_gc. Qed.
+Check C13_source_term_gc : forall t, term_gc t = bind (buf_gc (buf t)) (fun '(b, dr) => Ok (t <| buf := b |>, g_gc_select (active t) (Some dr))).
+Print Assumptions C13_source_term_gc.
